@@ -245,8 +245,8 @@ fn exhaustive_evaluate(report: &Report, sink: &Sink, small: &Small, shapes: &[Sh
             for fm in 0..2usize {
                 // `RowIdMask | RowIdMask` subtracts lists from each other; "full fragment minus
                 // partial" materialises a 2^32-row bitmap (10 s, 512 MB). Full-fragment markers are
-                // therefore only enumerated for shapes whose OR nodes combine NOT-free subtrees.
-                if fm == 1 && !s.or_safe() {
+                // therefore only enumerated for `marker_safe` shapes (OR over NOT-free subtrees, no nested NOT).
+                if fm == 1 && !s.marker_safe() {
                     continue;
                 }
                 units.push((si, kinds, fm));
@@ -389,7 +389,7 @@ fn exhaustive_evaluate(report: &Report, sink: &Sink, small: &Small, shapes: &[Sh
     let complete = done == units.len() as u64;
     if complete {
         report.count("evaluate_tree_shapes_completed", shapes.len() as u64);
-        report.count("evaluate_tree_shapes_completed_with_full_fragment_markers", shapes.iter().filter(|s| s.or_safe()).count() as u64);
+        report.count("evaluate_tree_shapes_completed_with_full_fragment_markers", shapes.iter().filter(|s| s.marker_safe()).count() as u64);
     }
     complete
 }
@@ -457,6 +457,121 @@ fn random_map_case(report: &Report, sink: &Sink, i: u64) {
             json!({"seed": report.seed as i64, "part": "random-maps", "case": i, "detail": d, "op_logs": logs, "fragment_pool": pools.frags,
                 "replay": format!("e_sets C21 --seed {} --case {i}", report.seed as i64)})
         });
+    }
+}
+
+/// `DeletionVector` (per-fragment set of deleted offsets) against a BTreeSet<u32>.
+fn deletion_vector_case(report: &Report, sink: &Sink, i: u64) {
+    use lance_core::utils::deletion::{DeletionVector, OffsetMapper};
+    let mut rng = Rng::for_case(report.seed, i);
+    let mut model: BTreeSet<u32> = BTreeSet::new();
+    let mut dv = DeletionVector::default();
+    let mut log: Vec<String> = vec![];
+    let gen_val = |rng: &mut Rng| -> u32 {
+        match rng.below(5) {
+            0 => rng.below(64) as u32,
+            1 => 65_530 + rng.below(12) as u32,
+            2 => u32::MAX - rng.below(5) as u32,
+            _ => rng.below(20_000) as u32,
+        }
+    };
+    let r = guarded(|| -> Result<(), Fail> {
+        for _ in 0..rng.urange(1, 5) {
+            // extend with: exact-size iterators (Vec), unknown-size iterators (filter), big batches
+            let n = match rng.below(5) {
+                0 => 0,
+                1 => rng.urange(4_990, 5_010),
+                _ => rng.urange(1, 300),
+            };
+            let vals: Vec<u32> = (0..n).map(|_| gen_val(&mut rng)).collect();
+            log.push(format!("extend({} values, {})", vals.len(), if rng.bool() { "sized" } else { "unsized" }));
+            if log.last().unwrap().contains("unsized") {
+                dv.extend(vals.iter().copied().filter(|_| true));
+            } else {
+                dv.extend(vals.iter().copied());
+            }
+            model.extend(vals.iter().copied());
+            if dv.len() != model.len() || dv.is_empty() != model.is_empty() {
+                return Err(("deletion-vector:len".into(), format!("len {} vs {}", dv.len(), model.len())));
+            }
+            let mut got: Vec<u32> = dv.iter().collect();
+            got.sort_unstable();
+            let want: Vec<u32> = model.iter().copied().collect();
+            if got != want {
+                return Err(("deletion-vector:iter-content".into(), format!("{} vs {}", got.len(), want.len())));
+            }
+            if dv.to_sorted_iter().collect::<Vec<_>>() != want || dv.clone().into_sorted_iter().collect::<Vec<_>>() != want || dv.clone().into_iter().collect::<Vec<_>>() != want {
+                return Err(("deletion-vector:sorted-iteration".into(), String::new()));
+            }
+            for _ in 0..40 {
+                let v = if want.is_empty() || rng.bool() { gen_val(&mut rng) } else { *rng.pick(&want) };
+                if dv.contains(v) != model.contains(&v) {
+                    return Err(("deletion-vector:contains".into(), format!("contains({v}) = {}", dv.contains(v))));
+                }
+                let a = v.saturating_sub(rng.below(4) as u32);
+                let b = a.saturating_add(rng.below(6) as u32);
+                let all = (a..b).all(|x| model.contains(&x));
+                if dv.contains_range(a..b) != all {
+                    return Err(("deletion-vector:contains_range".into(), format!("contains_range({a}..{b}) = {}, model {all}", dv.contains_range(a..b))));
+                }
+            }
+            // the same contents in the other representation compare equal
+            let other = if matches!(dv, DeletionVector::Bitmap(_)) {
+                DeletionVector::Set(model.iter().copied().collect())
+            } else {
+                DeletionVector::Bitmap(model.iter().copied().collect())
+            };
+            if !model.is_empty() && other != dv {
+                return Err(("deletion-vector:eq-across-representations".into(), String::new()));
+            }
+            let rb = roaring::RoaringBitmap::from(&dv);
+            if rb.iter().collect::<Vec<_>>() != want {
+                return Err(("deletion-vector:to-roaring".into(), String::new()));
+            }
+            // predicate over row addresses: true = keep
+            let addrs: Vec<u64> = (0..30).map(|_| ((rng.below(3)) << 32) | gen_val(&mut rng) as u64).collect();
+            match dv.build_predicate(addrs.iter()) {
+                Some(p) => {
+                    for (k, a) in addrs.iter().enumerate() {
+                        if p.value(k) == model.contains(&(*a as u32)) {
+                            return Err(("deletion-vector:build_predicate".into(), format!("address {a:#x}")));
+                        }
+                    }
+                }
+                None => {
+                    if !matches!(dv, DeletionVector::NoDeletions) {
+                        return Err(("deletion-vector:build_predicate-none".into(), String::new()));
+                    }
+                }
+            }
+        }
+        // offset mapper: the k-th surviving row
+        if model.iter().all(|v| *v < 1_000_000) && !model.is_empty() {
+            let mut mapper = OffsetMapper::new(Arc::new(dv.clone()));
+            let mut survivors = (0u32..).filter(|x| !model.contains(x));
+            let mut k = 0u32;
+            for _ in 0..50 {
+                let step = rng.below(40) as u32;
+                let mut want = survivors.next().unwrap();
+                for _ in 0..step {
+                    want = survivors.next().unwrap();
+                }
+                k += step;
+                let got = mapper.map_offset(k);
+                if got != want {
+                    return Err(("deletion-vector:offset-mapper".into(), format!("map_offset({k}) = {got}, model {want}")));
+                }
+                k += 1;
+            }
+        }
+        Ok(())
+    });
+    report.case((model.len() >= 2).then(|| hash_of(&("dv", model.len(), model.iter().next(), model.iter().next_back(), matches!(dv, DeletionVector::Bitmap(_))))));
+    report.count("deletion_vector_cases", 1);
+    match r {
+        Ok(Ok(())) => {}
+        Ok(Err((sig, what))) => sink.violation_lazy(&sig, &what, || json!({"seed": report.seed as i64, "part": "deletion-vector", "case": i, "ops": log, "detail": what, "replay": format!("e_sets C21 --seed {} --case {i}", report.seed as i64)})),
+        Err(p) => sink.violation_lazy("deletion-vector:panic", &p, || json!({"seed": report.seed as i64, "part": "deletion-vector", "case": i, "ops": log, "panic": p})),
     }
 }
 
@@ -565,7 +680,7 @@ fn random_eval_case(report: &Report, sink: &Sink, i: u64) {
         let mut marks = 0;
         for (f, idxs) in &frag_rows {
             let all = idxs.iter().all(|k| bv_get(&r, *k));
-            if all && rng.bool() && shape.or_safe() {
+            if all && rng.bool() && shape.marker_safe() {
                 set.insert_fragment(*f);
                 marks += 1;
             } else {
@@ -675,7 +790,7 @@ fn probe_main(name: &str) -> i32 {
 
 fn run_probe(name: &str) -> Result<String, String> {
     let exe = std::env::current_exe().map_err(|e| e.to_string())?;
-    let cmd = format!("ulimit -v 300000; exec '{}' C21 --probe {}", exe.display(), name);
+    let cmd = format!("ulimit -v 150000; exec '{}' C21 --probe {}", exe.display(), name);
     let mut child = std::process::Command::new("sh")
         .arg("-c")
         .arg(cmd)
@@ -731,12 +846,12 @@ fn probes(report: &Report, sink: &Sink) {
             Ok(s) if s == "ok" => report.count("child_probes_ok", 1),
             Ok(s) if s == "timeout" => report.inconclusive(&format!("probe {name}: still running after 120 s (killed); not counted as a violation")),
             Ok(s) => {
-                // the child runs under `ulimit -v 300 MB`: a call that should add a handful of rows
+                // the child runs under `ulimit -v 150 MB`: a call that should add a handful of rows
                 // and instead dies from memory exhaustion is a deterministic observation
                 let class = if s.starts_with("mismatch") { "wrong-content" } else { "does-not-terminate-or-exhausts-memory" };
                 sink.violation_lazy(
                     &format!("treemap:insert_range:range-ending-in-fragment-u32max:{class}"),
-                    &format!("probe {name}: {s} (child limited to 300 MB address space; the same call in fragment u32::MAX-1 returns at once)"),
+                    &format!("probe {name}: {s} (child limited to 150 MB address space; the same call in fragment u32::MAX-1 returns at once)"),
                     || json!({"probe": name, "outcome": s, "replay": format!("e_sets C21 --probe {name}")}),
                 );
             }
@@ -858,7 +973,7 @@ pub fn run(args: &Args) -> i32 {
     }
     quiet_panics();
     arm_watchdog(args.tier.pick(240, 1500));
-    let rule = "Enumerated completely: (a) all pairs of the 23 representations (explicit / full-fragment marker) of the 16 subsets of a 4-address, 2-fragment universe under |,&,- (+assign forms, union_all, extend, serde); (b) all 576x576 pairs of RowIdMask (allow,block in {None}+23) under !,&,|,also_block,also_allow,mask, arrow round trip, selected_indices, iter_ids; (c) ScalarIndexExpr::evaluate on ALL 29 tree shapes of depth<=3 with <=3 leaves (and, when `evaluate_depth4_enumeration_complete` is true, also all 139 shapes of depth 4) x {Exact,AtMost,AtLeast}^leaves x 16^leaves returned sets (explicit rows; and again with full-fragment markers for the shapes whose OR nodes have NOT-free operands), each checked against EVERY leaf truth assignment consistent with the leaf kinds. Plus seeded random large tree maps/masks (ranges at 2^32 boundaries, empty/reversed ranges, full-fragment markers) and random evaluate trees (depth<=6, <=8 leaves, <=1200 rows). A case is non-trivial when both operands are non-empty (sets/masks) or the expression has an operator and selects neither none nor all rows.";
+    let rule = "Enumerated completely: (a) all pairs of the 23 representations (explicit / full-fragment marker) of the 16 subsets of a 4-address, 2-fragment universe under |,&,- (+assign forms, union_all, extend, serde); (b) all 576x576 pairs of RowIdMask (allow,block in {None}+23) under !,&,|,also_block,also_allow,mask, arrow round trip, selected_indices, iter_ids; (c) ScalarIndexExpr::evaluate on ALL 29 tree shapes of depth<=3 with <=3 leaves (and, when `evaluate_depth4_enumeration_complete` is true, also all 139 shapes of depth 4) x {Exact,AtMost,AtLeast}^leaves x 16^leaves returned sets (explicit rows; and again with full-fragment markers for the shapes whose OR nodes have NOT-free operands), each checked against EVERY leaf truth assignment consistent with the leaf kinds. Plus seeded random large tree maps/masks (ranges at 2^32 boundaries, empty/reversed ranges, full-fragment markers) random evaluate trees (depth<=6, <=8 leaves, <=1200 rows), and DeletionVector op sequences (extend across the 5000-entry Set/Bitmap threshold, contains/contains_range/iteration/predicate/OffsetMapper) against a BTreeSet<u32>. A case is non-trivial when both operands are non-empty (sets/masks) or the expression has an operator and selects neither none nor all rows.";
     let report = Report::new(args, "exploration", rule, (50, 600)).with_min_nontrivial(1000);
     let sink = Sink::to_report(&report);
     if let Err(e) = model_selfcheck() {
@@ -871,6 +986,8 @@ pub fn run(args: &Args) -> i32 {
         // replay of one random case
         if c % 4 == 0 {
             random_eval_case(&report, &sink, c);
+        } else if c % 8 == 1 {
+            deletion_vector_case(&report, &sink, c);
         } else {
             random_map_case(&report, &sink, c);
         }
@@ -919,6 +1036,8 @@ pub fn run(args: &Args) -> i32 {
                 let t0 = std::time::Instant::now();
                 if i % 4 == 0 {
                     random_eval_case(&report, &sink, i);
+                } else if i % 8 == 1 {
+                    deletion_vector_case(&report, &sink, i);
                 } else {
                     random_map_case(&report, &sink, i);
                 }
